@@ -139,6 +139,7 @@ type h struct {
 	fbk       string
 	noFx      bool
 	slow      *slowFx
+	ramp      atomic.Pointer[rendezvous]
 }
 
 // releaseFx lets every side effect that is still in flight finish.
@@ -234,7 +235,52 @@ func chanClosed(c chan struct{}) func() bool {
 type parkLogger struct{ s *h }
 
 // every message is formatted, as a real logger would do (the arguments' String methods run)
-func (l *parkLogger) Debug(msg string, a ...any) { _ = fmt.Sprintf(msg, a...) }
+func (l *parkLogger) Debug(msg string, a ...any) {
+	txt := fmt.Sprintf(msg, a...)
+	// `pburst`: the first callers that log the recovery ramp's state before deciding rendezvous here
+	if rv := l.s.ramp.Load(); rv != nil && strings.HasPrefix(txt, "RatioController(") && !strings.HasSuffix(txt, "allowed") && !strings.HasSuffix(txt, "denied") {
+		rv.wait()
+	}
+}
+
+// rendezvous (op `pburst`): the first callers wait until `want` of them are inside at once, or 300 ms have passed; after that
+// it is transparent.  The breaker decides a request in recovery (and logs the ramp's state first) while it holds its write
+// lock, so on the code as it is only one caller is ever inside: the rendezvous times out, once, and the burst is decided one
+// request after the other.  A breaker that takes these decisions on a shared snapshot lets every caller read the same counters.
+type rendezvous struct {
+	mu   sync.Mutex
+	want int
+	in   int
+	done bool
+	ch   chan struct{}
+}
+
+func (b *rendezvous) wait() {
+	b.mu.Lock()
+	if b.done {
+		b.mu.Unlock()
+		return
+	}
+	b.in++
+	if b.in >= b.want {
+		b.done = true
+		close(b.ch)
+		b.mu.Unlock()
+		return
+	}
+	ch := b.ch
+	b.mu.Unlock()
+	select {
+	case <-ch:
+	case <-time.After(300 * time.Millisecond):
+		b.mu.Lock()
+		if !b.done {
+			b.done = true
+			close(b.ch)
+		}
+		b.mu.Unlock()
+	}
+}
 func (l *parkLogger) Info(msg string, a ...any)  { _ = fmt.Sprintf(msg, a...) }
 func (l *parkLogger) Error(msg string, a ...any) { _ = fmt.Sprintf(msg, a...) }
 func (l *parkLogger) Warn(msg string, a ...any) {
@@ -537,6 +583,57 @@ func (s *h) op(f []string, line *string) string {
 		q := s.quiesce()
 		s.prevState = s.state()
 		return "burst " + sb.String() + " " + s.prevState + q
+	case f[0] == "pburst" && len(f) == 2:
+		// n requests arrive at once, at one frozen instant: the answers are counted, not ordered
+		if s.parkedID != "" || atomic.LoadInt32(&s.armed) > 0 {
+			return "bad-op"
+		}
+		s.parking = nil
+		n := hx.Atoi(f[1])
+		if n < 1 || n > 64 {
+			return "bad-op"
+		}
+		s.ramp.Store(&rendezvous{want: n, ch: make(chan struct{})})
+		fls := make([]*flight, n)
+		ids := make([]string, n)
+		for i := 0; i < n; i++ {
+			s.nBurst++
+			ids[i] = fmt.Sprintf("~%d", s.nBurst)
+			fls[i] = newFlight()
+			s.flights[ids[i]] = fls[i]
+		}
+		gate := make(chan struct{})
+		for i := 0; i < n; i++ {
+			fl, req := fls[i], newReq([]string{"start", ids[i]}, fls[i])
+			go func() {
+				defer close(fl.done)
+				<-gate
+				s.cb.ServeHTTP(fl.rec, req)
+			}()
+		}
+		close(gate)
+		np, nf, nx := 0, 0, 0
+		for i := 0; i < n; i++ {
+			select {
+			case <-fls[i].entered:
+				np++
+			case <-fls[i].done:
+				delete(s.flights, ids[i])
+				if s.isFallback(fls[i].rec) {
+					nf++
+				} else {
+					nx++
+				}
+			}
+		}
+		s.ramp.Store(nil)
+		q := s.quiesce()
+		s.prevState = s.state()
+		out := fmt.Sprintf("pburst pass=%d fallback=%d", np, nf)
+		if nx > 0 {
+			out += fmt.Sprintf(" other=%d", nx)
+		}
+		return out + " " + s.prevState + q
 	case f[0] == "finish" && len(f) >= 3:
 		fl, ok := s.flights[f[1]]
 		if !ok || f[1] == s.parkedID {
